@@ -47,6 +47,7 @@ use super::graph::{Vertex as GraphVertexTrait, Edge as GraphEdgeTrait}; // index
 //@ include units/C15/block_edit.rs
 //@ include units/C15/cfg_import.rs
 //@ include units/C15/cfg_edit.rs
+//@ include units/C15/cfg_merge.rs
 proof fn vf_canary_il() ensures false {}
 } // mod il
 
